@@ -131,7 +131,7 @@ def emit(pairs):
         inex = "true" if imp.get("inexact") else "false"
         floats = E.coq_list([E.coq_q(n, d) for n, d in E.float_leaves(imp["a"])])
         items.append(f"(check_roundtrip gen_special_funcs {E.to_coq(imp['a'])} {floats} {E.coq_string(imp['text'])} {E.to_coq(imp['b'])} {inex} "
-                     f"{'true' if imp['fs_equal'] else 'false'} pts)")
+                     f"{'true' if imp['fs_equal'] and imp.get('undef_equal', True) else 'false'} pts)")
     lines.append("Definition results : list (list nat * list nat) :=\n " + E.coq_list(items) + ".\n")
     lines.append("Eval vm_compute in results.\n")
     return "\n".join(lines)
